@@ -84,9 +84,9 @@ pub enum Shot {
 pub enum Op {
     Feed { slot: u8, form: Form, bytes: Vec<u8> },
     Skip { slot: u8, n: u64 },
-    /// Really feed `n` zero bytes through one call of the given update form
-    /// (iterator, per-byte loop, or one slice) -- unlike `Skip`, which uses the
-    /// fast-forward hook.  For per-call state that only misbehaves when a
+    /// Really feed `n` zero bytes through one call of the iterator form or of
+    /// the slice form, or through n per-byte calls -- unlike `Skip`, which uses
+    /// the fast-forward hook.  For per-call state that only misbehaves when a
     /// single call consumes 2^32 bytes or more (scenario `c03huge`).
     RealZeros { slot: u8, n: u64, form: Form },
     /// via 0: `dst = src.clone()`; via 1: `dst.clone_from(&src)` into the existing object
@@ -748,6 +748,12 @@ fn step(cx: &mut Ctx, slots: &mut [Slot], op: &Op, twin: bool) {
             cx.ev(true, format_args!("skip s{} {}", slot, n));
         }
         Op::RealZeros { slot, n, form } => {
+            if no_ff() && *n > MATERIALISE_MAX {
+                // the reference for a run this long needs the fast-forward hook,
+                // which failed its validation in this build: not executed
+                cx.ev(true, format_args!("feed_zeros s{} {} dropped (fast-forward disabled)", slot, n));
+                return;
+            }
             let s = &mut slots[*slot as usize];
             fn feed(g: &mut Generator, n: u64, form: Form) {
                 match form {
@@ -1136,7 +1142,10 @@ fn shot_step(cx: &mut Ctx, s: &Slot, slot: u8, kind: &Shot, twin: bool) {
             if twin {
                 let mut rd = SimReader::new(&all, &script, *scribble, true).with_tail(*tail);
                 let tw = ssdeep::hash_stream(&mut rd);
-                let twin_ok = matches!((&tw, &want), (Ok(a), Ok(b)) if a.full_eq(b));
+                // ... and it must have read the whole file: a stream path that stops
+                // early (and by coincidence still gets the hash of a tiny input) makes
+                // the declaration refuse a short-fed stream, which is C12 working
+                let twin_ok = matches!((&tw, &want), (Ok(a), Ok(b)) if a.full_eq(b)) && rd.trace.delivered == all.len();
                 if !twin_ok {
                     cx.probe("shot.file_twin_foreign");
                     cx.ev_std(format_args!("hash_file s{} {} not judged: undeclared stream twin disagrees with the reference", slot, abr(&all)));
